@@ -266,7 +266,18 @@ def r3_sq_wake(r, facts):
     sqe.expect_const(r, fm, 'Submissions::wake/request', 8, facts.const('io_uring::cq::WAKE_USER_DATA'), 'target CQE user_data (off) = WAKE_USER_DATA')
     sqe.expect_const(r, fm, 'Submissions::wake/request', 16, facts.const('io_uring::libc::IORING_MSG_DATA'), 'addr = IORING_MSG_DATA')
     d = fm.get(4)
-    r.require(d is not None and any(rt[0] == 'call' and rt[1].endswith('ring_fd') for rt in d['roots']), 'Submissions::wake/request/@4', 'the message is not addressed to the ring\'s own fd: %s' % (d and sorted(map(str, d['roots']))), cl.where())
+    own_fd = d is not None and any(rt[0] == 'call' and rt[1].endswith('ring_fd') for rt in d['roots'])
+    if d is not None and not own_fd:
+        # the descriptor may have been read into a local that the closure captures
+        from .kernel import closure_captures
+        parent, caps = closure_captures(facts, cl)
+        names = sqe.upvar_names(cl)
+        for rt in d['roots']:
+            if rt[0] == 'upvar':
+                for idx, nm in names.items():
+                    if nm == rt[1] and idx < len(caps) and any(x[0] == 'call' and x[1].endswith('ring_fd') for x in subexprs(caps[idx])):
+                        own_fd = True
+    r.require(own_fd, 'Submissions::wake/request/@4', 'the message is not addressed to the ring\'s own fd: %s' % (d and sorted(map(str, d['roots']))), cl.where())
     # flush: every path from a successful add to return passes enter; a full queue is retried, never given up
     if adds:
         from .kernel import result_edges
